@@ -33,6 +33,7 @@ import (
 	"time"
 	"unsafe"
 
+	nc "verif/gen/nativecalls"
 	"verif/kit"
 
 	"github.com/open2b/scriggo"
@@ -426,10 +427,10 @@ var nilFuncInHost = &hostPanicSentinel{"host function was given a nil func"}
 
 type runResult struct {
 	buildPanic any
-	buildErr  error
-	err       error
-	hostPanic any
-	stack     string
+	buildErr   error
+	err        error
+	hostPanic  any
+	stack      string
 }
 
 func describeFiles(files map[string]string) string {
@@ -597,7 +598,6 @@ func execute(sc srcCase, globals native.Declarations, vars map[string]any, withC
 	}
 	return r, ctx
 }
-
 
 func faultSpaces() []kit.Space {
 	fs := faults()
@@ -1060,10 +1060,65 @@ func urlSpace(tier string) kit.Space {
 	}
 }
 
+// ---- native callees: call form × failure kind ----
+
+func nativeCallSpace() kit.Space {
+	cs := nc.Cases()
+	return kit.Space{
+		Name: "native-calls", Size: uint64(len(cs)),
+		Eval: func(i uint64) kit.Outcome {
+			c := cs[i]
+			if !c.Applicable() {
+				return kit.Outcome{OK: true, Class: "n/a: Stop/Fatal need an Env parameter; variables and returned functions have none"}
+			}
+			r := nc.Run(c)
+			src, _ := c.Source()
+			detail := c.String() + "\n" + describeFiles(src)
+			if r.BuildErr != nil || r.BuildPanic != nil {
+				return kit.Outcome{Key: "harness|native-calls source does not build", Detail: fmt.Sprintf("%s\n%v %v", detail, r.BuildErr, r.BuildPanic), Class: "fail", Nontrivial: true}
+			}
+			detail += "\nobserved: " + r.Summary()
+			switch r.Kind {
+			case "host panic":
+				switch {
+				case nc.IsHostRuntimeError(c.Kind, r.HostPanic):
+					// the native function's own runtime error: host code
+				case c.Kind == nc.KCallbackPanics && fmt.Sprint(r.HostPanic) == "cb-boom\n":
+					return kit.Outcome{Key: "hostpanic|" + kit.FirstRepoFrame(r.Stack) + "|string: the text of an unrecovered interpreted panic", Class: "host-panic", Nontrivial: true, Detail: detail}
+				case nc.EnvValueDefect(r.HostPanic):
+					return kit.Outcome{Key: "hostpanic|" + kit.FirstRepoFrame(r.Stack) + "|string: reflect.Set: a native function with an Env parameter used as a function value is not assignable to its function type", Class: "host-panic", Nontrivial: true, Detail: detail}
+				default:
+					return kit.Outcome{Key: "hostpanic|" + kit.FirstRepoFrame(r.Stack) + "|" + kit.NormMsg(panicText(r.HostPanic)) + "|in=native-callee", Class: "host-panic", Nontrivial: true, Detail: detail}
+				}
+			case "Fatal value panic":
+				if c.Kind != nc.KFatal {
+					return kit.Outcome{Key: "native-callee|Fatal panic without a call of Fatal", Class: "fail", Nontrivial: true, Detail: detail}
+				}
+			case "other error":
+				return kit.Outcome{Key: "native-callee|Run returned an undocumented error|" + kit.NormMsg(r.Err.Error()), Class: "fail", Nontrivial: true, Detail: detail}
+			}
+			// differential twin: the direct call form gives the same outcome
+			if t := c.Twin(); t != c {
+				tr := nc.Run(t)
+				if tr.Summary() != r.Summary() {
+					return kit.Outcome{Key: "native-callee|outcome differs from the direct-call twin|callee " + nc.KindNames[c.Kind], Class: "fail", Nontrivial: true,
+						Detail: detail + "\ndirect-call twin: " + tr.Summary()}
+				}
+			}
+			cl := "native callee: " + r.Kind
+			if r.Kind == "host panic" {
+				cl = "native callee: host-code panic propagated"
+			}
+			return kit.Outcome{OK: true, Class: cl, Nontrivial: true}
+		},
+		Describe: func(i uint64) any { return cs[i].Describe() },
+	}
+}
+
 func spaces(tier string) []kit.Space {
 	debug.SetMaxStack(64 << 20) // a runaway recursion of the renderer dies quickly
 	sps := faultSpaces()
-	sps = append(sps, depthSpace(tier), showSpace(tier), urlSpace(tier))
+	sps = append(sps, nativeCallSpace(), depthSpace(tier), showSpace(tier), urlSpace(tier))
 	if only := os.Getenv("C05_ONLY"); only != "" { // development aid
 		var out []kit.Space
 		for _, sp := range sps {
@@ -1082,8 +1137,9 @@ func main() {
 		Level:       "model_checking",
 		Isolated:    true,
 		HangSeconds: 60,
-		Rule: "faults: every fault of the list (nil map write, nil pointer field/deref/method, index and slice bounds on string/slice/array/pointer-to-array, failed assertions, closed/nil channel misuse, divide and modulo by zero for 11 integer kinds, bad make sizes, short slice→array conversion, unhashable keys, uncomparable ==, nil func calls, plus defined-behaviour controls) × 4 operand forms × 6 program positions / 2 template positions × {no options, cancellable context}; depth: 16 recursive shapes × call depths around the register-stack boundaries; show: 32 contexts × every host value × declaration modes × {template body, macro}; url: 12 URL-attribute patterns × 3 preceding texts × second values × every host value × modes. A case is non-trivial when the combination exists and builds (it then really runs)",
+		Rule:        "faults: every fault of the list (nil map write, nil pointer field/deref/method, index and slice bounds on string/slice/array/pointer-to-array, failed assertions, closed/nil channel misuse, divide and modulo by zero for 11 integer kinds, bad make sizes, short slice→array conversion, unhashable keys, uncomparable ==, nil func calls, plus defined-behaviour controls) × 4 operand forms × 6 program positions / 2 template positions × {no options, cancellable context}; depth: 16 recursive shapes × call depths around the register-stack boundaries; show: 32 contexts × every host value × declaration modes × {template body, macro}; url: 12 URL-attribute patterns × 3 preceding texts × second values × every host value × modes. A case is non-trivial when the combination exists and builds (it then really runs)",
 		Assumptions: []string{
+			"native-calls: 21 program and 7 template call forms × 10 failure kinds of the native callee × callee with/without Env × {not recovered, recovered by the caller}; besides the host-panic oracle the outcome (result kind, message, printed locals of the four register kinds) must equal that of the direct-call twin; a runtime.Error raised by the native function's own code is host code",
 			"C01's generated programs (space (a) of the design) are not re-run here",
 			"a panic raised by a method of a host value (String/Error/HTML/JS/JSON/CSS/Markdown, or the Go wrapper of a value method called through a nil pointer) is host code: the statement does not promise to convert it; it is classed 'host-code panic propagated'",
 			"results outside the documented list that are plain errors (an unshowable value: 'cannot show value of type …'; 'go of nil func value') are accepted and counted in their own outcome class: the statement's subject is host panics",
